@@ -134,10 +134,43 @@ let run_fblk line =
        | FFuel -> print_endline "fblk MODEL_OUT_OF_FUEL")
   | _ -> print_endline "fblk badtable"
 
+(* one block of decode_mcu_AC_first / decode_mcu_AC_refine; JCOEF is a 16-bit store *)
+let jcoef v = let w = ((v mod 65536) + 65536) mod 65536 in if w >= 32768 then w - 65536 else w
+let run_prog refine rest =
+  let fs = fields rest in
+  let hd = ints (List.nth fs 0) in
+  let ss = List.nth hd 0 and se = List.nth hd 1 and al = List.nth hd 2 in
+  let eob, acb = if refine then List.nth hd 3, 0 :: drop 4 hd else 0, 0 :: drop 3 hd in
+  let acv = ints (List.nth fs 1) in
+  let blk0, data = if refine then ints (List.nth fs 2), bytes_of_hex (String.trim (List.nth fs 3))
+                   else [], bytes_of_hex (String.trim (List.nth fs 2)) in
+  let pad l = l @ List.init (256 - List.length l) (fun _ -> 0) in
+  let tag = if refine then "prefine" else "pfirst" in
+  let tr_ok tr = List.for_all (fun (i, b) -> let i = int_of_z i and b = int_of_z b in 0 <= i && i < b) tr in
+  match make_d_derived (zl acb) (zl (pad acv)) false (z_of_int 15) with
+  | None -> Printf.printf "%s error\n" tag
+  | Some a ->
+      let bits = bits_of_bytes data @ List.init 4096 (fun _ -> false) in
+      if not refine then
+        (match ac_first_loop (nat_of_int 64) a (z_of_int se) (z_of_int al) (z_of_int ss) bits [] [] with
+         | PDone (e, tr, _, st) ->
+             let blk = Array.make 64 0 in
+             List.iter (fun (p, v) -> blk.(int_of_z p) <- jcoef (int_of_z v)) (List.rev st);
+             Printf.printf "%s %s eob=%d%s\n" tag (pr_ints (Array.to_list blk)) (int_of_z e) (if tr_ok tr then "" else " TRACE-OUT-OF-RANGE")
+         | PSusp _ -> Printf.printf "%s susp\n" tag
+         | PFuel _ -> Printf.printf "%s MODEL_OUT_OF_FUEL\n" tag)
+      else
+        (match ac_refine_block a (z_of_int ss) (z_of_int se) (z_of_int al) (z_of_int eob) (zl blk0) bits with
+         | RDone (blk, _, e, tr) -> Printf.printf "%s %s eob=%d%s\n" tag (pr_ints (List.map jcoef (il blk))) (int_of_z e) (if tr_ok tr then "" else " TRACE-OUT-OF-RANGE")
+         | RSusp _ -> Printf.printf "%s susp\n" tag
+         | RFuel _ -> Printf.printf "%s MODEL_OUT_OF_FUEL\n" tag)
+
 let () = iter_lines (fun line ->
   let line = String.trim line in
   if String.length line >= 4 && String.sub line 0 4 = "hdr " then run_hdr (String.trim (String.sub line 4 (String.length line - 4)))
   else if line = "hdr" then run_hdr ""
   else if String.length line >= 4 && String.sub line 0 4 = "blk " then run_blk (String.sub line 4 (String.length line - 4))
+  else if String.length line >= 7 && String.sub line 0 7 = "pfirst " then run_prog false (String.sub line 7 (String.length line - 7))
+  else if String.length line >= 8 && String.sub line 0 8 = "prefine " then run_prog true (String.sub line 8 (String.length line - 8))
   else if String.length line >= 5 && String.sub line 0 5 = "fblk " then run_fblk (String.sub line 5 (String.length line - 5))
   else print_endline "?")
